@@ -262,16 +262,18 @@ var verifTopos = []verifTopo{
 // four topologies (steady state, fail-over, fail-back as replica, resharding), interleaved with
 // ticker runs. After every step the routing table, the replica sets and the pools describe the
 // LATEST reply - whatever came before.
-func HarnessC14History(h, ntopo int) {
+func HarnessC14History(h, ntopo int) { verifC14History(h, ntopo, false) }
+
+// HarnessC14Bunched: as HarnessC14History, but probe replies may bunch up: after each reply the
+// solver decides whether the event loop's ticker gets to run before the next reply is processed.
+// The cluster then stays at the last description: the probe repeats it and the ticker runs; the
+// table must describe it.
+func HarnessC14Bunched(h, ntopo int) { verifC14History(h, ntopo, true) }
+
+func verifC14History(h, ntopo int, bunched bool) {
 	w, _ := verifClusterWorld()
 	cn := &EngineGlobal.ClusterNodes
-	for step := 0; step < h; step++ {
-		t := verifTopos[verifrt.Choice("topology", ntopo)]
-		if err := cn.updateClusterNodes(t.text); err != nil {
-			verifrt.Assert(false, "valid_text_accepted")
-		}
-		verifrt.Sleep(1100) // the ticker runs at most once a second
-		w.Tick()
+	check := func(t verifTopo) {
 		verifrt.Assert(!cn.serverChanged, "change_consumed_by_ticker")
 		for m, rng := range t.masters {
 			for _, slot := range []int{rng[0], rng[1]} {
@@ -299,11 +301,37 @@ func HarnessC14History(h, ntopo int) {
 			verifrt.Assert(ok && p.isSlave, "replica_pool_present_and_replica")
 		}
 	}
+	var last verifTopo
+	for step := 0; step < h; step++ {
+		t := verifTopos[verifrt.Choice("topology", ntopo)]
+		last = t
+		if err := cn.updateClusterNodes(t.text); err != nil {
+			verifrt.Assert(false, "valid_text_accepted")
+		}
+		if bunched && verifrt.Choice("ticker_runs_before_next_reply", 2) == 0 {
+			continue
+		}
+		verifrt.Sleep(1100) // the ticker runs at most once a second
+		w.Tick()
+		check(t)
+	}
+	if bunched {
+		// the cluster is stable now: the next probes repeat the last description
+		for i := 0; i < 2; i++ {
+			if err := cn.updateClusterNodes(last.text); err != nil {
+				verifrt.Assert(false, "valid_text_accepted")
+			}
+			verifrt.Sleep(1100)
+			w.Tick()
+		}
+		check(last)
+	}
 	verifrt.Cover("end", true)
 }
 
 func init() {
 	verifrt.Register("HarnessC14History", func(p []int64) { HarnessC14History(int(p[0]), int(p[1])) })
+	verifrt.Register("HarnessC14Bunched", func(p []int64) { HarnessC14Bunched(int(p[0]), int(p[1])) })
 	verifrt.Register("HarnessC14Loop", func(p []int64) { HarnessC14Loop() })
 	verifrt.Register("HarnessC14Parse", func(p []int64) { HarnessC14Parse() })
 	verifrt.Register("HarnessC14Ticker", func(p []int64) { HarnessC14Ticker() })
